@@ -1350,6 +1350,41 @@ def d3_watch(ctx):
     ob.close()
 
 
+def d2_batch_identity(ctx):
+    """add_many hands every element of its argument to the INSERT in the given order: the parameter is only ever
+    re-bound to tuple(param)/list(param) and iterated directly (INSERT OR IGNORE makes the FIRST occurrence win)."""
+    repo, ck = ctx.repo, ctx.check
+    fi = repo.func(TABLE + '.add_many')
+    ob = Ob(ck, 'C14-D2', fi)
+    N = 'the rows inserted are the elements of the argument, all of them, in order'
+    ob.declare(N)
+    p = fi.params[1] if len(fi.params) > 1 else None
+    if p is None:
+        ob.fail(N, 'add_many has no batch parameter')
+        ob.close()
+        return
+    for v, kind, st in U.local_defs(fi.node).get(p, []):
+        if kind == 'param':
+            continue
+        good = kind == 'assign' and isinstance(v, ast.Call) and dotted(v.func) in ('tuple', 'list') and len(v.args) == 1 \
+            and isinstance(v.args[0], ast.Name) and v.args[0].id == p and not v.keywords
+        if not good:
+            ob.fail(N, 'the batch is rebuilt as `%s` before it is inserted: duplicates inside one batch are no longer resolved in '
+                       'favour of the first occurrence (or rows are dropped/reordered)' % norm_text(v if v is not None else st), st)
+    loops = [n for n in walk_no_nested(fi.node) if isinstance(n, ast.For) and isinstance(n.iter, ast.Name) and n.iter.id == p]
+    other = [n for n in walk_no_nested(fi.node) if isinstance(n, ast.For) and any(isinstance(x, ast.Name) and x.id == p for x in ast.walk(n.iter))
+             and n not in loops]
+    if not loops:
+        ob.fail(N, 'the batch parameter is never iterated directly')
+    for n in other:
+        ob.fail(N, 'the batch is iterated through `%s`' % norm_text(n.iter), n)
+    for lp in loops:
+        for x in ast.walk(lp):
+            if isinstance(x, (ast.Break, ast.Continue)):
+                ob.fail(N, 'the loop over the batch skips or stops early', x)
+    ob.close()
+
+
 def d3_add_many(ctx):
     repo, ck = ctx.repo, ctx.check
     fi = repo.func(TABLE + '.add_many')
@@ -1806,5 +1841,6 @@ def run(ctx):
     d2_add_urls(ctx)
     d2_impls(ctx)
     d3_watch(ctx)
+    d2_batch_identity(ctx)
     d3_add_many(ctx)
     d4_wrapper(ctx)
